@@ -5,6 +5,7 @@ import SfxProofs.PowAccC15
 import SfxProofs.ExpAccWideC15
 import SfxProofs.PowAccWideC15
 import SfxProofs.PowAccNeg
+import SfxProofs.ExpBandC15
 /-
   C15, the exp clause — what is true and what is false of the current tree, both proved:
 
@@ -31,7 +32,13 @@ import SfxProofs.PowAccNeg
       `exp(0)` early return (kernel-evaluated), the true value is `< 1/1000` and the allowed error is far smaller than 0.999.  Affected: types
       with `n ≥ 2f + 4` and exponents of magnitude above about `2^f/8`.  The witnesses are in corpus/C15.req and replayed on every run.
 
-  Not proved: exp for `f/4 < |x|` and pow for `f/4 − 1/2 < |y·ln x|` inside the region where the clauses are true; powi and the conventions are in
+    * `exp_holds_outside_D10` : the exp clause, word for word, for EVERY supported type and EVERY operand outside known finding D10 —
+      the only hypothesis is the negation of the finding's predicate: the tail `Σ_{i ≥ f} |x|^i / i!` that the code omits is at most
+      `2^-24 · e^|x|` (`ExpAccPf.Rm |x| f`, identified with the series tail by `ExpBandPf.Rm_hasSum`).  So for exp the property is now
+      DECIDED everywhere: it holds outside the finding's region (theorem) and fails inside it at the witness (theorem + replay).
+      Non-vacuity inside the new band: I32F32 at x = 9.0 (`4·9 > 32`), `ExpBandPf.band_witness_hyp` / `band_witness_result`.
+
+  Not proved: pow for `f/4 − 1/2 < |y·ln x|` inside the region where the clause is true; powi and the conventions are in
   SfxProps/C15.lean (`C15_partial`).
 -/
 namespace Sfx.C15
@@ -58,6 +65,23 @@ theorem exp_holds_wide (D : Layout) (h : Supp D) (x : Int) (hx : inRange D x) (h
     ∀ r it dbg, Trans.run (Trans.exp D D x) = .ok (some r, it) dbg →
       |val D.f r - Real.exp (val D.f x)| ≤ Real.exp (val D.f x) / (2 : ℝ) ^ 20 + 64 / (2 : ℝ) ^ D.f :=
   ExpAccPf.C15_exp_wide D h x hx hsmall
+
+/-- the exp clause for EVERY operand outside known finding D10 (omitted tail of the series ≤ 2^-24 · e^|x|) -/
+theorem exp_holds_outside_D10 (D : Layout) (h : Supp D) (x : Int) (hx : inRange D x)
+    (htail : ExpAccPf.Rm |val D.f x| D.f ≤ Real.exp |val D.f x| / 2 ^ 24) :
+    ∀ r it dbg, Trans.run (Trans.exp D D x) = .ok (some r, it) dbg →
+      |val D.f r - Real.exp (val D.f x)| ≤ Real.exp (val D.f x) / (2 : ℝ) ^ 20 + 64 / (2 : ℝ) ^ D.f :=
+  ExpBandPf.C15_exp_band D h x hx htail
+
+/-- `Rm X n` in the hypothesis above IS the tail of the exponential series after `n` terms -/
+theorem D10_tail_is_series_tail (X : ℝ) (n : ℕ) : HasSum (fun i => X ^ (i + n) / ((i + n).factorial : ℝ)) (ExpAccPf.Rm X n) :=
+  ExpBandPf.Rm_hasSum X n
+
+/-- non-vacuity of `exp_holds_outside_D10` beyond `exp_holds_wide`: I32F32, x = 9.0 -/
+theorem exp_band_witness :
+    ExpAccPf.Rm |((9 * 2 ^ 32 : Int) : ℝ) / 2 ^ (⟨true, 64, 32⟩ : Layout).f| (⟨true, 64, 32⟩ : Layout).f ≤
+      Real.exp |((9 * 2 ^ 32 : Int) : ℝ) / 2 ^ (⟨true, 64, 32⟩ : Layout).f| / 2 ^ 24 :=
+  ExpBandPf.band_witness_hyp
 
 /-- the pow clause for `|y·ln x| ≤ 7/2`, `|y| ≤ 2^f/32` -/
 theorem pow_holds_small (D : Layout) (h : Supp D) (x y : Int) (hx : inRange D x) (hy : inRange D y)
